@@ -491,8 +491,16 @@ def rule_parser(ctx):
     if owner is not None:
         methods = {m_.name: m_ for m_ in owner.body if isinstance(m_, ast.FunctionDef)}
 
-        def marker_related(m_):
-            return any(isinstance(x, ast.Constant) and x.value in ("lineprefix", "*") for x in ast.walk(m_))
+        def marker_related(m_, seen_=()):
+            if any(isinstance(x, ast.Constant) and x.value in ("lineprefix", "*") for x in ast.walk(m_)):
+                return True
+            # ... or through the private methods it calls
+            for c2 in ast.walk(m_):
+                if isinstance(c2, ast.Call) and isinstance(c2.func, ast.Attribute) and isinstance(c2.func.value, ast.Name) and c2.func.value.id in ("self", "cls", owner.name) \
+                        and c2.func.attr.startswith("_") and c2.func.attr in methods and c2.func.attr not in seen_ and len(seen_) < 4:
+                    if marker_related(methods[c2.func.attr], seen_ + (c2.func.attr,)):
+                        return True
+            return False
         work = [sub]
         while work:
             cur = work.pop()
@@ -601,8 +609,10 @@ def rule_parser(ctx):
 
     prefix_exprs = set()    # what reaches nodes.Const(<prefix>), token spelled TOK
     n_sinks = 0
-    for kind, parse_fn in (("variable_begin", "parse_tuple"), ("block_begin", "parse_statement")):
-        tok, body_ = branch(kind)
+    counters = {"sinks": 0}
+
+    def analyse_body(kind, parse_fn, tok, body_, seed_env, ret_how, where, depth=0):
+        nonlocal prefix_exprs
 
         def marker_of(terms, pvars):
             for e, pol in [(_canon_marker_text(e_), p_) for e_, p_ in terms]:
@@ -627,8 +637,9 @@ def rule_parser(ctx):
             return None
 
         for path in pyfront.enumerate_paths(body_):
-            env, pvars, tokvals = {}, set(), {}
+            env, pvars, tokvals = dict(seed_env), set(), {}
             sinks = []
+            parts = {}       # <node>.filter = <wrapper call> / <node>.body = <parsed construct>: a filter block built piece by piece
 
             def classify(e):
                 if isinstance(e, ast.Name):
@@ -657,11 +668,38 @@ def rule_parser(ctx):
                         env[st.targets[0].id] = ("prefix", st.targets[0].id)
                     else:
                         env[st.targets[0].id] = classify(v)
+                elif isinstance(st, ast.Assign) and len(st.targets) == 1 and isinstance(st.targets[0], ast.Attribute) and isinstance(st.targets[0].value, ast.Name):
+                    holder, attr = st.targets[0].value.id, st.targets[0].attr
+                    clv = classify(st.value)
+                    if attr == "filter" and clv[0] in ("wrapped", "other") and isinstance(st.value, ast.Call) and isinstance(st.value.func, ast.Name) and st.value.func.id in wrappers:
+                        parts.setdefault(holder, {})["filter"] = st.value
+                    elif attr == "filter" and has_lp(st.value):
+                        parts.setdefault(holder, {})["filter"] = st.value
+                    elif attr == "body" and clv[0] in ("parsed", "list1", "aslist"):
+                        parts.setdefault(holder, {})["body"] = clv
+                    if set(parts.get(holder, {})) == {"filter", "body"}:
+                        env[holder] = ("wrapped", parts[holder]["filter"])
+                elif isinstance(st, ast.Return) and ret_how is not None and st.value is not None:
+                    cl = classify(st.value)
+                    sinks.append((ret_how, cl, st))
                 elif isinstance(st, ast.Expr) and isinstance(st.value, ast.Call) and st.value.args:
                     c = st.value
-                    cl = classify(c.args[0])
+                    how = "extend" if isinstance(c.func, ast.Attribute) and c.func.attr == "extend" else "append"
+                    a0 = c.args[0]
+                    # the construct and its begin token handed to a helper that decides about the marker itself: judged inside the helper
+                    if isinstance(a0, ast.Call) and isinstance(a0.func, ast.Name) and a0.func.id in local_fns and depth < 2 and len(a0.args) >= 2 \
+                            and classify(a0.args[0])[0] in ("parsed", "list1", "aslist") and tok in [ast.unparse(x_) for x_ in a0.args]:
+                        h = local_fns[a0.func.id]
+                        hp = [x_.arg for x_ in h.args.args]
+                        decides = any(isinstance(x_, ast.Call) and isinstance(x_.func, ast.Name) and x_.func.id in prefix_helpers for x_ in ast.walk(h)) or \
+                            "endswith('*')" in ast.unparse(_canon_marker(ast.Module(body=h.body, type_ignores=[])))
+                        if decides and len(hp) == len(a0.args):
+                            seed = {hp[k_]: classify(a0.args[k_]) for k_ in range(len(hp)) if classify(a0.args[k_])[0] in ("parsed", "list1", "aslist")}
+                            htok = hp[[ast.unparse(x_) for x_ in a0.args].index(tok)]
+                            analyse_body(kind, parse_fn, htok, h.body, seed, how if kind == "block_begin" else "append", a0.func.id, depth + 1)
+                            continue
+                    cl = classify(a0)
                     if cl[0] != "other" and cl[0] != "prefix":
-                        how = "extend" if isinstance(c.func, ast.Attribute) and c.func.attr == "extend" else "append"
                         sinks.append((how, cl, c))
             if not sinks:
                 continue
@@ -669,8 +707,8 @@ def rule_parser(ctx):
             marked = marker_of(terms, pvars)
             is_list = next((pol for e, pol in terms if e.startswith("isinstance(") and e.endswith(", list)")), None)
             for how, cl, c in sinks:
-                n_sinks += 1
-                label = f"subparse :: {kind}: `{ast.unparse(c)[:50]}` " + ("[marked]" if marked else "[unmarked]")
+                counters["sinks"] += 1
+                label = f"{where} :: {kind}: `{ast.unparse(c)[:50]}` " + ("[marked]" if marked else "[unmarked]")
                 if marked == "entangled":
                     ok = cl[0] in ("wrapped", "wrapped1")
                     ctx.ob(R, rel, label.replace("[marked]", "[marker test mixed with another condition]") + " adds the construct wrapped in the lineprefix filter", ok,
@@ -698,6 +736,11 @@ def rule_parser(ctx):
                     ctx.ob(R, rel, label + " adds the parsed construct unchanged (a node list is spliced, a single node appended)", ok,
                            "" if ok else f"without the marker the construct reaches the body as {cl[0]} via {how} under {terms}: ordinary templates get another node tree than "
                            "stock Jinja2 builds", c.lineno)
+
+    for kind, parse_fn in (("variable_begin", "parse_tuple"), ("block_begin", "parse_statement")):
+        tok, body_ = branch(kind)
+        analyse_body(kind, parse_fn, tok, body_, {}, None, "subparse")
+    n_sinks = counters["sinks"]
     ctx.floor(R + ":sinks", n_sinks, 4)
     ok = prefix_exprs == {"TOK.value[:-3]"}
     ctx.ob(R, rel, "subparse :: the line prefix is the marker token without its three marker characters", ok,
@@ -1015,6 +1058,117 @@ def rule_ext(ctx, px):
     ctx.ob(R, envb.module.rel, "CodeGenEnvironmentBuilder.DEFAULT_JINJA_EXTENSIONS", dflt == "[jinja_do, loopcontrols, JinjaAssert, UseQuery]", str(dflt))
 
 
+def rule_compiler_scopes(ctx):
+    """R-C19-EXT, two scoping facts of the stock compiler that unmarked templates can observe (read from the bundled compiler.py, helper
+    methods followed in place):
+    (1) `{% include ... ignore missing %}`: the generated `except TemplateNotFound: pass` closes the try around the *lookup* of the
+        included template, and the rendering follows in the `else:` - a TemplateNotFound raised while the included template renders
+        (its own include / import / extends of a missing template) propagates, as it does upstream;
+    (2) a top-level `{% set %}` publishes every assigned name to context.vars - names with a leading underscore included; only the
+        *exported* names are filtered."""
+    R = "R-C19-EXT"
+    tree, path = _parse_module(ctx, "jinja/jinja2/compiler.py")
+    rel = ctx.rel(path)
+    cls = next((c for c in ast.walk(tree) if isinstance(c, ast.ClassDef) and c.name == "CodeGenerator"), None)
+    if cls is None:
+        raise AnalysisError("anchor missing: jinja2.compiler.CodeGenerator")
+    methods = {m.name: m for m in cls.body if isinstance(m, ast.FunctionDef)}
+
+    def emissions(fn, depth=0, seen=()):
+        """string literals handed to write / writeline in source order (format operands dropped), private emitters expanded in place"""
+        out = []
+
+        def lit(e):
+            if isinstance(e, ast.Constant) and isinstance(e.value, str):
+                return e.value
+            if isinstance(e, ast.BinOp) and isinstance(e.op, ast.Mod):
+                return lit(e.left)
+            if isinstance(e, ast.JoinedStr):
+                return "".join(v.value if isinstance(v, ast.Constant) else "%s" for v in e.values)
+            return None
+
+        class V(ast.NodeVisitor):
+            def visit_Call(self, c):
+                for a in c.args:
+                    self.visit(a)
+                if isinstance(c.func, ast.Attribute) and isinstance(c.func.value, ast.Name) and c.func.value.id == "self":
+                    if c.func.attr in ("write", "writeline") and c.args:
+                        t_ = lit(c.args[0])
+                        if t_ is not None:
+                            out.append((t_, c.lineno))
+                    elif c.func.attr.startswith("_") and c.func.attr in methods and c.func.attr not in seen and depth < 3:
+                        out.extend(emissions(methods[c.func.attr], depth + 1, seen + (c.func.attr,)))
+        for st in fn.body:
+            V().visit(st)
+        return out
+
+    vi = methods.get("visit_Include")
+    if vi is None:
+        raise AnalysisError("anchor missing: CodeGenerator.visit_Include")
+    # path by path, for the paths on which `ignore missing` was given
+    class _Stub:
+        def __init__(self, body):
+            self.body = body
+    n_paths, bad_line = 0, None
+    for path in pyfront.enumerate_paths(vi.body):
+        terms = path.terms()
+        if any((e == "node.ignore_missing" and not pol) or (e == "not node.ignore_missing" and pol) for e, pol in terms):
+            continue
+        simple = [st for st in path.stmts if not isinstance(st, ast.If)]
+        em = emissions(_Stub(simple))
+        texts = [t_ for t_, _l in em]
+        exc = next((i for i, t_ in enumerate(texts) if t_.startswith("except TemplateNotFound")), None)
+        els = next((i for i, t_ in enumerate(texts) if t_.strip() == "else:"), None)
+        rend = [i for i, t_ in enumerate(texts) if "root_render_func" in t_ or "_body_stream" in t_]
+        if exc is None or not rend:
+            continue
+        n_paths += 1
+        if not (exc < min(rend) and els is not None and exc < els < min(rend)):
+            bad_line = em[exc][1]
+    if n_paths == 0:
+        raise AnalysisError("anchor missing: the ignore-missing handler / the render loop emitted by visit_Include")
+    ok = bad_line is None
+    ctx.ob(R, rel, "compiler.visit_Include :: `ignore missing` swallows a TemplateNotFound of the lookup only (try / except / else around get_template)", ok,
+           "" if ok else "the handler is emitted after the code that renders the included template: a template that exists but itself includes, imports or extends a missing one "
+           "is silently rendered as truncated output instead of raising as upstream does", bad_line)
+    pa = methods.get("pop_assign_tracking")
+    if pa is None:
+        raise AnalysisError("anchor missing: CodeGenerator.pop_assign_tracking")
+    popped = {t_.id for n_ in ast.walk(pa) if isinstance(n_, ast.Assign) and "_assign_stack.pop()" in ast.unparse(n_.value) for t_ in n_.targets if isinstance(t_, ast.Name)}
+    if not popped:
+        raise AnalysisError("anchor missing: the popped name set in pop_assign_tracking")
+    # where the entries of context.vars are produced: a loop / comprehension whose element text is '%r: %s'
+    sources = []
+    for n_ in ast.walk(pa):
+        if isinstance(n_, ast.For) and any(isinstance(c_, ast.Constant) and isinstance(c_.value, str) and "%r: %s" in c_.value for c_ in ast.walk(n_)):
+            it = n_.iter
+            if isinstance(it, ast.Call) and isinstance(it.func, ast.Name) and it.func.id == "enumerate" and it.args:
+                it = it.args[0]
+            sources.append((ast.unparse(it), n_.lineno))
+        if isinstance(n_, (ast.GeneratorExp, ast.ListComp)) and any(isinstance(c_, ast.Constant) and isinstance(c_.value, str) and "%r: %s" in c_.value for c_ in ast.walk(n_.elt)):
+            sources.append((ast.unparse(n_.generators[0].iter), n_.lineno))
+    if not sources:
+        raise AnalysisError("anchor missing: construction of the context.vars update in pop_assign_tracking")
+    def complete(e, depth=0):
+        """does the expression range over every popped name (no filter on the way)?"""
+        if depth > 4:
+            return False
+        if isinstance(e, ast.Name):
+            if e.id in popped:
+                return True
+            asg = [n_.value for n_ in ast.walk(pa) if isinstance(n_, ast.Assign) and any(isinstance(t_, ast.Name) and t_.id == e.id for t_ in n_.targets)]
+            return len(asg) == 1 and complete(asg[0], depth + 1)
+        if isinstance(e, ast.Call) and isinstance(e.func, ast.Name) and e.func.id in ("sorted", "list", "tuple", "enumerate", "iter", "iteritems") and e.args:
+            return complete(e.args[0], depth + 1)
+        if isinstance(e, (ast.ListComp, ast.GeneratorExp)) and len(e.generators) == 1 and not e.generators[0].ifs:
+            return complete(e.generators[0].iter, depth + 1)
+        return False
+    ok = all(complete(ast.parse(src, mode="eval").body) for src, _l in sources)
+    ctx.ob(R, rel, "compiler.pop_assign_tracking :: every assigned top-level name is published to context.vars", ok,
+           "" if ok else f"the entries are taken from {[s_ for s_, _ in sources]} instead of the complete set {sorted(popped)}: names with a leading underscore set by a tuple "
+           "assignment are not visible to blocks, includes and imports with context, as they are upstream", sources[0][1])
+
+
 def run(ctx):
     ctx.explanation = (
         "C19 is decided as confinement of Nunavut's modifications: the regex ASTs of the lexer's *_begin alternatives "
@@ -1030,3 +1184,4 @@ def run(ctx):
     rule_parser(ctx)
     rule_lineprefix(ctx)
     rule_ext(ctx, px)
+    rule_compiler_scopes(ctx)
